@@ -231,6 +231,12 @@ class Ops:
         if isinstance(op, ast.NotIn):
             return VBool(z3.Not(self.contains(b, a, node)))
         a, b = self.unwrap(a, node), self.unwrap(b, node)
+        if a.kind == "none" or b.kind == "none":
+            # ordering with None raises TypeError: a safety obligation on this path
+            if not self.spec:
+                self.ctx.oblige("safety.ordering_operands_not_none", z3.BoolVal(False), node)
+            from .interp import PyRaise
+            raise PyRaise(VExc("TypeError"), node)
         if a.kind == "dyn" or b.kind == "dyn":
             return self.dyn_compare(op, a, b, node)
         if a.kind == "opaque" or b.kind == "opaque":
@@ -428,7 +434,7 @@ class Ops:
         elif c.kind == "ref" and c.rkind == "dict":
             items = self.ctx.cell(c)[0]
         elif c.kind == "slist":
-            k = self.ctx.fresh("k_in", I)
+            k = self.ctx.bound("k_in")
             if not self.spec and not self.ctx.no_branch and False:
                 pass
             n = self.ctx.slen(c.z)
